@@ -112,26 +112,42 @@ pub fn run_fault(line: &str) -> String {
         }
     }
     let mut out: Vec<String> = vec![];
+    let run_timeout = std::time::Duration::from_secs(
+        std::env::var("RVH_FAULT_RUN_TIMEOUT").ok().and_then(|s| s.parse().ok()).unwrap_or(30),
+    );
     for (name, plan) in plans {
         let h2: Vec<String> = hist.iter().map(|s| s.to_string()).collect();
-        let res = std::panic::catch_unwind(std::panic::AssertUnwindSafe(|| {
-            let h3: Vec<&str> = h2.iter().map(|s| s.as_str()).collect();
-            let (sim, results, fired, last_cfg) = run_history(&h3, cfg, Some(plan.clone()));
-            // the fault is gone: reopen and scan
-            let (reopen, scan) = match Session::open(sim.clone(), last_cfg) {
-                Ok(mut s2) => {
-                    s2.quiesce();
-                    let sc = s2.scan_all(None);
-                    s2.close();
-                    ("ok".to_string(), sc)
-                }
-                Err(e) => (format!("open-{}", e), "-".to_string()),
-            };
-            format!("{}|{}|{}|{}|{}", name, fired, results.join(","), reopen, scan)
-        }));
-        match res {
-            Ok(s) => out.push(s),
-            Err(_) => out.push(format!("{}|panic|-|-|-", name)),
+        let (tx, rx) = std::sync::mpsc::channel();
+        let name2 = name.clone();
+        let _ = std::thread::Builder::new()
+            .name("case-fault".to_string())
+            .stack_size(64 << 20)
+            .spawn(move || {
+                let res = std::panic::catch_unwind(std::panic::AssertUnwindSafe(|| {
+                    let h3: Vec<&str> = h2.iter().map(|s| s.as_str()).collect();
+                    let (sim, results, fired, last_cfg) = run_history(&h3, cfg, Some(plan.clone()));
+                    // the fault is gone: reopen and scan
+                    let (reopen, scan) = match Session::open(sim.clone(), last_cfg) {
+                        Ok(mut s2) => {
+                            s2.quiesce();
+                            let sc = s2.scan_all(None);
+                            s2.close();
+                            ("ok".to_string(), sc)
+                        }
+                        Err(e) => (format!("open-{}", e), "-".to_string()),
+                    };
+                    format!("{}|{}|{}|{}|{}", name2, fired, results.join(","), reopen, scan)
+                }));
+                let _ = tx.send(res);
+            });
+        match rx.recv_timeout(run_timeout) {
+            Ok(Ok(s)) => out.push(s),
+            Ok(Err(_)) => out.push(format!("{}|panic|-|-|-", name)),
+            Err(_) => {
+                out.push(format!("{}|hang|-|-|-", name));
+                // the stuck run keeps its threads; stop here so that they cannot pile up
+                break;
+            }
         }
     }
     format!("{} {}", id, out.join(" "))
